@@ -222,6 +222,10 @@ def run(chk):
         chk.violation('oracle', 'nn.%s of a module that receives sub-modules through its dataclass fields (declared in the order %s) differs from the plain module '
                       '(output, variable tree of init, or mutable updates)' % (c['form'], c['names']), {'case': c, 'lifted': o['impl'], 'plain': o['ref']})
   chk.notes['field_modules'] = {'cases': len(fcases)}
+  for r in common.run_impl('impl_c05_fields.py', {'autoname': True}, timeout=900)['autoname']:
+    chk.count({'autoname': r['case']}, True)
+    if 'err' in r or not (r['same_tree'] and r['same_init_out'] and r['same_apply_out']):
+      chk.violation('oracle', 'a lifted helper method / branch function that creates auto-named sub-modules (%s) differs from the plain code: variable tree of init, or outputs' % r['case'], r)
   import c05_ctl
   c05_ctl.run_ctl(chk)
   chk.notes['stats'] = stat
